@@ -5,6 +5,7 @@ import os
 import tempfile
 
 import engine
+import propcommon
 import projgen
 import runoracle
 import sim
@@ -42,6 +43,7 @@ def check(run):
             if (code != 0) != fail:
                 run.violation("exit-code-wrong", "lcc run --exit-error-on-failure returned %s for a %s project" % (code, "failing" if fail else "passing"),
                               {"failing_project": fail, "exit_code": code})
+    propcommon.search_failing_schedule(run, cases, runoracle.c02_oracle, results)
     run.coverage["rule"] = ("seeded random projects biased towards failures of every kind in every phase and towards user threads; "
                             "non-trivial = a run whose report holds at least one failed and one passed result")
     run.coverage["traces_validated_against_impl"] = len([c for c in cases if results.get(c["id"], {}).get("graph")])
